@@ -398,6 +398,47 @@ def r08_14(run, model):
            witness="fn triple(x: int32) -> int32 { x * 3 } fn main() { let f = triple; .. f(2) }: `triple` is pruned as unreachable, Go: undefined: triple")
 
 
+def r08_16(run, model):
+    run.rule("R08.16", "the apply function is registered under one type: in transform_closure the type given to `insert_func` and the type of "
+                       "the `apply` method scheme are the same binding, a function type whose parameters are those of the generated function "
+                       "(environment first) - the Go back end finds a closure's apply function by looking for a method whose first "
+                       "parameter is the environment struct")
+    f = model.fn("transform_closure", LIFT)
+    norm = lambda e: re.sub(r"^&|\.clone\(\)$", "", S.norm_ws(run.facts.text(LIFT, e["sp"])))
+    ins = [c for c in S.walk(f.body) if c["k"] == "MethodCall" and c["method"] == "insert_func" and len(c["args"]) >= 2]
+    sch = [st for st in S.find(f.body, "Struct") if st["segs"][-1] == "FnScheme"]
+    lf = [st for st in S.find(f.body, "Struct") if st["segs"][-1] == "LiftFn"]
+    if len(ins) != 1 or len(sch) != 1 or len(lf) != 1:
+        raise AnalysisIncomplete(f"transform_closure: insert_func x{len(ins)}, FnScheme x{len(sch)}, LiftFn x{len(lf)}")
+    a = norm(ins[0]["args"][1])
+    tyf = next((fl for fl in sch[0]["fields"] if fl["name"] == "ty"), None)
+    b = norm(tyf["expr"]) if tyf else None
+    run.ob("R08.16", "transform_closure|function table and apply method carry the same type", a == b, site(LIFT, sch[0]["sp"]),
+           f"insert_func(.., {a}) / FnScheme {{ ty: {b} }}",
+           witness="go |..| body: the back end no longer finds the apply function (its first parameter is not the environment), emits "
+                   "`go worker__3()` on the struct and prunes the closure bodies as dead")
+    lets = {l["pat"]["name"]: l["init"] for l in S.find(f.body, "Local") if l["pat"]["k"] == "PIdent" and l.get("init") is not None}
+    init = lets.get(a)
+    fn_params = next((fl for fl in lf[0]["fields"] if fl["name"] == "params"), None)
+    src = S.idents(fn_params["expr"]) if fn_params else set()
+    ok = False
+    if init is not None and init["k"] == "Struct" and init["segs"][-1] == "TFunc":
+        pf = next((fl for fl in init["fields"] if fl["name"] == "params"), None)
+        if pf is not None:
+            ids = set(S.idents(pf["expr"]))
+            for i in list(ids):
+                if i in lets:
+                    ids |= S.idents(lets[i])
+            ok = bool(ids & src)
+    run.ob("R08.16", "transform_closure|that type is built from the generated function's parameters", ok, site(LIFT, ins[0]["sp"]),
+           f"`{a}` = {S.norm_ws(run.facts.text(LIFT, init['sp']))[:70] if init is not None else '?'}; LiftFn params come from {sorted(src)}")
+
+
+def r08_15(run, model):
+    from rules import c07
+    c07.r07_8(run, model, only=("EClosure",))
+
+
 def run(run, model):
     run.try_rule(r08_10, model)
     run.try_rule(r08_12, model)
@@ -419,6 +460,10 @@ def run(run, model):
     from rules import c07
     run.rule("R08.6", "the closure-type predicates and rewriters of lift.rs are structural over every type former (shared with C07 R07.2, restricted to lift.rs)")
     run.try_rule(c07.r07_2, model, LIFT)
+    # lifting takes the apply function's signature from the closure's type: a closure inside a generic function whose type was not
+    # instantiated gives an apply function declared `-> T` (shared with C07 R07.8, closure nodes only)
+    run.try_rule(r08_15, model)
+    run.try_rule(r08_16, model)
     run.try_rule(r08_1, model)
     run.try_rule(r08_2, model)
     run.try_rule(r08_3, model)
